@@ -92,7 +92,7 @@ Proof.
   unfold read_message_gen. destruct (noise_len_ok (length msg)) eqn:Hg.
   2:{ rewrite read_len_guard_bad by assumption. discriminate. }
   rewrite read_len_guard_ok by assumption. cbn [obind].
-  unfold noise_len_ok in Hg. apply andb_true_iff in Hg. destruct Hg as [Hg1 _]. apply Nat.leb_le in Hg1.
+  apply noise_len_ok_iff in Hg. destruct Hg as [Hg1 _].
   unfold x_noise_pattern. cbn [fold_tokens].
   rewrite (rd_TE P Hh) by (cbn [Nat.add]; lia). cbn [obind Nat.add].
   unfold read_token. cbn [re s_priv]. unfold x25519.
